@@ -164,7 +164,8 @@ def evalPiece (env : TEnv) : TPiece → TStr
     | _ => []
 end
 
-def isDigitStr (s : Str) : Bool := !s.isEmpty && s.all (fun c => pyCats.isDigit c.toNat)
+/-- `str.isdigit()` (not `\d`: it also accepts superscript and circled digits) over the regenerated table -/
+def isDigitStr (s : Str) : Bool := !s.isEmpty && s.all (fun c => NatTree.rangeMem Generated.strDigitTree c.toNat)
 
 def evalCond (env : TEnv) : TCond → Bool
   | .truthy e => !(evalPieces env e).isEmpty
